@@ -68,6 +68,7 @@ pub fn run_outcome(ctx: &Ctx) -> (&'static str, Outcome) {
         "C07" => "C07",
         "C08" => "C08",
         "C20" => "C20",
+        "C06" => "C06",
         _ => "C18",
     };
     let dir = ctx.scratch_dir(&prop.to_lowercase());
@@ -103,7 +104,7 @@ pub fn run_outcome(ctx: &Ctx) -> (&'static str, Outcome) {
             sim.w_msg = 40;
             sim.rumor_ts_values = 2;
         }
-        let cfg = HistCfg { sim, redelivery_pct: if prop == "C07" { 25 } else { 0 }, judge_c01: prop == "C01" || prop == "C02", judge_c02: prop == "C02", keep_world: false };
+        let cfg = HistCfg { sim, redelivery_pct: if prop == "C07" { 25 } else { 0 }, judge_c01: prop == "C01" || prop == "C02", judge_c02: prop == "C02", keep_world: false, check_refusals: prop == "C06" };
         let tag = format!("{}-{}", prop.to_lowercase(), i);
         let res = run_history(rng, &cfg, &dir, &tag);
         out.evaluations += 1;
@@ -129,6 +130,7 @@ pub fn run_outcome(ctx: &Ctx) -> (&'static str, Outcome) {
         let nontrivial = match prop {
             "C01" | "C02" => res.rollbacks > 0,
             "C07" => res.counters.get("c07_redeliveries").copied().unwrap_or(0) > 0,
+            "C06" => res.counters.get("c06_history_refusals_checked").copied().unwrap_or(0) > 0,
             _ => res.canonical_len > 0,
         };
         if nontrivial {
